@@ -79,6 +79,7 @@ def gen_cases(rng, tier):
     for (st, sp, stp) in ([(-30.0, 5.0, 10.0), (-45.0, 2.5, 15.0)] if tier == "quick" else [(-30.0, 5.0, 10.0), (-45.0, 2.5, 15.0), (-20.0, 1.0, 5.0), (-60.0, 7.0, 7.5), (-14.0, 0.5, 2.0)]):
         W, Hh = rng.choice([(100.0, 60.0), (80.0, 50.0), (60.0, 60.0)])
         cs.append({"mode": "optimize", "poly": [[0.0, 0.0], [W, 0.0], [W, Hh], [0.0, Hh]], "spacing": 10.0, "rot_step": stp, "rot_start": st, "rot_stop": sp, "timeout": 60})
+    cs.append({"mode": "optimize", "poly": [[0.0, 0.0], [90.0, 10.0], [110.0, 60.0], [20.0, 50.0]], "spacing": 9.0, "rot_step": 5.0, "rot_start": 0.0, "rot_stop": 45.0, "timeout": 60})
     n = 24 if tier == "quick" else 160
     n += len(cs)
     while len(cs) < n:
@@ -95,8 +96,10 @@ def gen_cases(rng, tier):
         if rng.random() < 0.5:
             poly = poly[::-1]
         sp = round(rng.uniform(5, 25), 2)
-        c = {"mode": "optimize", "poly": poly, "spacing": sp, "rot_step": rng.choice([2.0, 5.0, 15.0, 7.5]), "rot_start": rng.choice([-90.0, -85.0, -45.0, -30.0]),
+        c = {"mode": "optimize", "poly": poly, "spacing": sp, "rot_step": rng.choice([2.0, 5.0, 15.0, 7.5]), "rot_start": rng.choice([-90.0, -85.0, -45.0, -30.0, 0.0]),
              "rot_stop": rng.choice([0.0, 30.0, 85.0, 90.0]), "timeout": 60}
+        if c["rot_stop"] <= c["rot_start"]:
+            c["rot_stop"] = rng.choice([45.0, 90.0])            # a window that starts exactly at 0 degrees
         if rng.random() < 0.3:
             cx = sum(p[0] for p in poly) / len(poly)
             cy = sum(p[1] for p in poly) / len(poly)
@@ -130,6 +133,18 @@ def gen_cases(rng, tier):
             continue
         cs.append({"mode": "optimize", "poly": poly, "spacing": sp, "rot_step": rng.choice([5.0, 7.5, 15.0]), "rot_start": rng.choice([-90.0, -45.0]),
                    "rot_stop": rng.choice([30.0, 90.0]), "timeout": 60, "nogo": [ng]})
+    # three or more no-go zones in a line (one row crosses them all)
+    for _ in range(2 if tier == "quick" else 10):
+        W, Hh = rng.choice([(200.0, 60.0), (160.0, 50.0)])
+        sp = rng.choice([8.0, 9.0, 11.0])
+        zs = []
+        nz = rng.choice([3, 3, 4])
+        for k in range(nz):
+            cx = W * (k + 1) / (nz + 1)
+            cy = Hh / 2 + rng.uniform(-3, 3)
+            zs.append(convex(rng, rng.randint(4, 6), cx, cy, rng.uniform(6, 10)))
+        if all(is_convex(z) for z in zs):
+            cs.append({"mode": "optimize", "poly": [[0.0, 0.0], [W, 0.0], [W, Hh], [0.0, Hh]], "spacing": sp, "rot_step": 3.0, "rot_start": -6.0, "rot_stop": 7.0, "timeout": 60, "nogo": zs})
     # corners on the axes / at the origin, edges on the axes, the full [-90, 90] window
     cs.append({"mode": "optimize", "poly": [[0, 0], [80, 0], [40, 60]], "spacing": 10.0, "rot_step": 5.0, "rot_start": -85.0, "rot_stop": 85.0, "timeout": 60})
     cs.append({"mode": "optimize", "poly": [[0, 10], [60, 0], [90, 50], [20, 70]], "spacing": 12.0, "rot_step": 5.0, "rot_start": -60.0, "rot_stop": 60.0, "timeout": 60})
@@ -270,6 +285,42 @@ def run(chk):
             chk.violation("rowwise-rect", pub, {"translated_by": [c["_x0"], c["_y0"]], "other_origin": by_shape[key][1]}, "translating the lot translates the field rigidly")
         by_shape.setdefault(key, (rel, [c["_x0"], c["_y0"]]))
         rect_items.append((c, o))
+    # translating a convex lot translates the field rigidly: lots with a corner at the origin / on an axis against their translates, one rotation each
+    tr = []
+    for _ in range(6 if quick else 40):
+        nv = rng.randint(3, 8)
+        r0 = rng.uniform(35, 70)
+        poly = convex(rng, nv, r0 + 3, r0 + 3, r0)
+        if not is_convex(poly):
+            continue
+        k = rng.randrange(len(poly))
+        ox, oy = poly[k]
+        poly = [[round(p[0] - ox, 3), round(p[1] - oy, 3)] for p in poly]          # vertex k at the origin
+        mx, my = min(p[0] for p in poly), min(p[1] for p in poly)
+        poly = [[round(p[0] - mx, 3), round(p[1] - my, 3)] for p in poly]          # first quadrant, touching both axes
+        dx, dy = rng.choice([(8.0, 4.0), (13.5, 5.25), (0.0, 21.75)])
+        rot = rng.choice([-60.0, -30.0, -7.5, 0.0, 20.0, 45.0])
+        sp = round(rng.uniform(6, 14), 2)
+        tr.append(({"mode": "config", "poly": poly, "spacing": sp, "rotate": rot, "timeout": 40},
+                   {"mode": "config", "poly": [[round(p[0] + dx, 3), round(p[1] + dy, 3)] for p in poly], "spacing": sp, "rotate": rot, "timeout": 40}, (dx, dy)))
+    with ThreadPoolExecutor(max_workers=NPROC) as ex:
+        rt = list(ex.map(lambda pr: run_impl("rowwise_drv.py", {"cases": [pr[0], pr[1]]}, timeout=200), tr))
+    for (a_, b_, (dx, dy)), rr in zip(tr, rt):
+        if isinstance(rr, dict) and "_error" in rr:
+            chk.broken.append({"name": "translation run failed in the harness", "detail": rr["_error"][-200:]})
+            continue
+        chk.cov["evaluations"] += 1
+        if not (rr[0].get("ok") and rr[1].get("ok")):
+            if len(chk.violations) < 5:
+                chk.violation("rowwise-translate", {"lot": a_, "translated": b_}, {"outcomes": [rr[0].get("exc"), rr[1].get("exc")]}, "field generation succeeds on a convex lot and on its translate")
+            continue
+        nontrivial += 1
+        pa = sorted((round(p[0] + dx, 5), round(p[1] + dy, 5)) for p in rr[0]["pts"])
+        pb = sorted((round(p[0], 5), round(p[1], 5)) for p in rr[1]["pts"])
+        same = len(pa) == len(pb) and all(abs(x[0] - y[0]) + abs(x[1] - y[1]) < 1e-4 for x, y in zip(pa, pb))
+        if not same and len(chk.violations) < 5:
+            chk.violation("rowwise-translate", {"lot": a_, "translated_by": [dx, dy]}, {"boreholes": len(pa), "boreholes_of_the_translated_lot": len(pb)},
+                          "translating the lot translates the field rigidly")
     # correspondence with the exact model: the rectangle at rotation 0 (sorted point sets, 1e-6 m)
     if getattr(chk, "model_ok", False):
         items = []
